@@ -15,6 +15,7 @@ import (
 	"math/big"
 	"os"
 	"strconv"
+	"time"
 )
 
 type replayEntry struct {
@@ -160,6 +161,9 @@ func PermuteMaps(maxEntries int)       {}
 func TrackRaces(on bool)               {}
 func Trace(msg string)                 { fmt.Println("VH-TRACE " + msg) }
 func SyncPoint()                       {}
+
+// Quiesce waits until the goroutines started by the code under test have run (natively: a pause).
+func Quiesce() { time.Sleep(300 * time.Millisecond) }
 
 // RunHarness runs fn natively, reporting the outcome in the format bin/check parses.
 func RunHarness(name string, fn func()) {
